@@ -321,15 +321,17 @@ fn expand(st: &State, depth: usize, l: &mut Local, out: &mut Vec<State>) {
             }
         }
     }
-    l.eval();
-    l.transitions += 1;
-    match guarded(|| s.shift_by(1.5, -0.5)) {
-        Err(m) => {
-            l.check("shifting returns", "panic", false, mk("shift_by"), || m.clone());
-        }
-        Ok(r) => {
-            let ok = valid(&r).is_none() && xs.iter().all(|p| (r.interpolate(p + 1.5) - (eval_ref(&xs, &ys, *p) - 0.5)).abs() <= 1e-9 * scale);
-            l.check("shifting transforms the graph", "", ok, mk("shift_by"), || format!("{:?}", r));
+    for (sx, sy) in [(1.5, -0.5), (0.0, 5.0), (-3.0, 0.0), (0.0, 0.0), (-0.0, 2.0), (1e-300, -0.0)] {
+        l.eval();
+        l.transitions += 1;
+        match guarded(|| s.shift_by(sx, sy)) {
+            Err(m) => {
+                l.check("shifting returns", "panic", false, mk("shift_by"), || m.clone());
+            }
+            Ok(r) => {
+                let ok = valid(&r).is_none() && r.x.len() == xs.len() && xs.iter().all(|p| (r.interpolate(p + sx) - (eval_ref(&xs, &ys, *p) + sy)).abs() <= 1e-9 * scale);
+                l.check("shifting transforms the graph", "", ok, mk("shift_by"), || format!("shift ({}, {}): {:?}", sx, sy, r));
+            }
         }
     }
 
